@@ -253,12 +253,16 @@ def check_mutations(ctx, prog, S):
                     if op.startswith('monitor'):
                         ctx.prove(name + '.monitor_registered_iff_not_stopping', o.st.pc, z3.BoolVal(now) == z3.Or(z3.BoolVal(was), z3.ULE(w.status[a].t, 4)), group='C11.monitor.registered_iff_not_stopping', key='C11.monitor', on_cex=cex)
                         seen.add('monitor')
+                        if now and not was:
+                            # same discipline as for joiners; no native race for this one: a counterexample ends inconclusive (exit 2), never as a VIOLATION
+                            ctx.prove(name + '.monitor_admitted_on_a_status_look_taken_under_its_relations_lock', o.st.pc, z3.BoolVal(looked_under_lock(o.st.trace, a, w.mutex_of(o.st).get(a))),
+                                      group='C11.monitor.admitted_on_a_status_look_taken_under_the_relations_lock', key='C11.monitor.admitted_on_a_status_look_taken_under_the_relations_lock', on_cex=None)
                     else:
                         claims['demonitor_removes_the_monitor'] = not now
                         claims['other_monitors_stay'] = [x for x in before_pool.get(kkey, []) if x != a] == [x for x in pool.get(kkey, []) if x != a]
                         seen.add('demonitor')
                     lp.record(ctx, name, o.st, claims, 'C11.' + op, on_cex=cex)
-    for w_ in ('join_effective', 'join_notified', 'leave_effective', 'exit_leaves_groups', 'exit_drops_monitors', 'monitor', 'demonitor', 'entry_released'):
+    for w_ in ('join_effective', 'join_notified', 'leave_effective', 'exit_leaves_groups', 'exit_drops_monitors', 'monitor', 'demonitor', 'entry_released', 'join_lock_look'):
         ctx.note_witness('C11.' + w_, w_ in seen)
 
 
